@@ -74,7 +74,7 @@ class TextData(Data):
                 f"Input 'values' for {self} must be of type {np.ndarray}  str or None."
             )
 
-        self._values = values
+        self._values = values.copy() if isinstance(values, np.ndarray) else values
 
         self.workspace.update_attribute(self, "values")
 
